@@ -305,9 +305,37 @@ func c02InvalidUTF8Names(c *mon.Ctx) {
 	}
 }
 
+// c02InvalidUTF8Signers: a signer name or key ID that is not UTF-8. SignJSON refuses, or what it returns verifies
+// under that very name and key ID and under no other.
+func c02InvalidUTF8Signers(c *mon.Ctx) {
+	if c.Shard != 0 {
+		return
+	}
+	id := gen.NewIdentity(c.RandShared("utf8-signer-2"), "unused.example", "ed25519:1")
+	for _, nk := range [][2]string{{"srv\xff", "ed25519:1"}, {"srv.example", "ed25519:\xff"}, {"\xc3(", "ed25519:a"}} {
+		c.Case("sign-verify:signer-not-utf8", map[string]any{"name": fmt.Sprintf("%q", nk[0]), "key_id": fmt.Sprintf("%q", nk[1])}, func() {
+			c.Nontrivial(fmt.Sprintf("signer-not-utf8|%q|%q", nk[0], nk[1]))
+			out, err := gmsl.SignJSON(nk[0], gmsl.KeyID(nk[1]), id.Priv, []byte(`{"content":{"body":"x"},"unsigned":{"age":1}}`))
+			c.Count("non_utf8_signer_calls")
+			if err != nil {
+				return
+			}
+			if verr := gmsl.VerifyJSON(nk[0], gmsl.KeyID(nk[1]), id.Pub, out); verr != nil {
+				c.Failf("sign:signer-not-utf8:output-does-not-verify", "SignJSON(%q, %q) returns %q without an error, and VerifyJSON under the same name and key ID refuses it: %v", nk[0], nk[1], out, verr)
+				return
+			}
+			alias := [2]string{strings.ToValidUTF8(nk[0], "\uFFFD"), strings.ToValidUTF8(nk[1], "\uFFFD")}
+			if verr := gmsl.VerifyJSON(alias[0], gmsl.KeyID(alias[1]), id.Pub, out); verr == nil {
+				c.Failf("verify:accepts-under-another-name", "a signature made as %q / %q verifies as %q / %q", nk[0], nk[1], alias[0], alias[1])
+			}
+		})
+	}
+}
+
 func runC02(c *mon.Ctx) {
 	c02NonObjects(c)
 	c02InvalidUTF8Names(c)
+	c02InvalidUTF8Signers(c)
 	r := c.Rand("objects")
 	sc := gen.Scramble(c.Rand("scramble"))
 	n := c.Scale(1500, 400000)
